@@ -33,9 +33,11 @@ def run(tier, runner):
     from ..rules import objlayout as _ol
     r_xl = _ol.xchg_layout([p_ for p_ in progs if 'flavour' in p_.meta])
     r_xl.require(3, 'swap_impl / move_construct / move_assign instantiations of SmallVectorBase')
+    r_xs = _ol.std_xchg_layout([p_ for p_ in progs if 'flavour' in p_.meta])
+    r_xs.require(3, 'swap_impl / move_construct / move_assign instantiations of StdVectorBase')
     return {
-        'results': [r_da, r_fa, r_st, r_re, r_w, r_blk, r_sr, r_xa, r_us, r_gl, r_xl],
-        'explanation': 'XCHG-LAYOUT: swap_impl / move_construct / move_assign of SmallVectorBase are interpreted with two objects (size words, union, heap blocks) for each of the nine pairs of states (inline not full / inline full / heap): each vector ends - decoded from its own words - with the size and the elements it was to receive, in order, a moved-from vector is the empty inline vector, nothing else is alive, every heap block is owned by exactly one vector or was given back exactly once with its capacity.  GROW-LAYOUT: grow / shrink / resetToSmall of SmallVectorBase and StdVectorBase are interpreted over the whole object (size words as linear forms, storage pointer, inline / owned / new block in one index space, allocator events recorded) once per state of the inline encoding: afterwards all size() elements are in the designated storage in order, nothing else is alive, the words decode to the same size and the new capacity (or to the inline state with the full marker exactly when size == N), the old block was given back exactly once with its capacity and the requested block is the one pointed to.  UNION-STATE: the heap pointer kept in the pointer / inline-elements union is read only where the vector is known to be on the heap (guards, predicates, grow, or every caller of the helper establishes it).  DEALLOC-ARG / REALLOC-ARGS: at every deallocate(p, n) the pointer is the object\'s own storage and n is a read of the same object\'s '
+        'results': [r_da, r_fa, r_st, r_re, r_w, r_blk, r_sr, r_xa, r_us, r_gl, r_xl, r_xs],
+        'explanation': 'XCHG-STD: the same three members of StdVectorBase (amc::vector), with and without a block on either side: pointer, capacity and size change hands together, a moved-from vector holds (null, 0, 0), elements stay in their blocks, the receiver of a move assignment destroys its former elements and gives its block back once with its capacity.  XCHG-LAYOUT: swap_impl / move_construct / move_assign of SmallVectorBase are interpreted with two objects (size words, union, heap blocks) for each of the nine pairs of states (inline not full / inline full / heap): each vector ends - decoded from its own words - with the size and the elements it was to receive, in order, a moved-from vector is the empty inline vector, nothing else is alive, every heap block is owned by exactly one vector or was given back exactly once with its capacity.  GROW-LAYOUT: grow / shrink / resetToSmall of SmallVectorBase and StdVectorBase are interpreted over the whole object (size words as linear forms, storage pointer, inline / owned / new block in one index space, allocator events recorded) once per state of the inline encoding: afterwards all size() elements are in the designated storage in order, nothing else is alive, the words decode to the same size and the new capacity (or to the inline state with the full marker exactly when size == N), the old block was given back exactly once with its capacity and the requested block is the one pointed to.  UNION-STATE: the heap pointer kept in the pointer / inline-elements union is read only where the vector is known to be on the heap (guards, predicates, grow, or every caller of the helper establishes it).  DEALLOC-ARG / REALLOC-ARGS: at every deallocate(p, n) the pointer is the object\'s own storage and n is a read of the same object\'s '
                        'capacity field, unmodified since; every vec::Reallocate call gets (own storage, own capacity, new capacity, own size) and the new '
                        'capacity is the value stored into the capacity field afterwards; inside Reallocate and amc::allocator\'s reallocate the parameters '
                        'reach allocate / relocate / deallocate in the documented positions and order (all are SizeType, so any permutation compiles).  '
